@@ -331,7 +331,14 @@ func (x *runner) scenarioSpecificChecks(stage string) {
 			known[suffix(h.HashOf())] = true
 		}
 		nReq, unbounded := 0, false
+		announced := map[string]bool{} // blocks the node has announced by inv: a request made for one of them stops there
 		for _, e := range evs {
+			if e.Dir == "out" && e.Cmd == "inv" {
+				if i := strings.LastIndex(e.Info, ".."); i >= 0 {
+					announced[e.Info[i+2:]] = true
+				}
+				continue
+			}
 			if e.Dir == "out" && e.Cmd == "headers" {
 				var n int
 				var a, b int32
@@ -363,8 +370,10 @@ func (x *runner) scenarioSpecificChecks(stage string) {
 				if want == "00000000" {
 					unbounded = true
 				}
+			case announced[stop]:
+				// a request made for an announced block stops at that block
 			case want == "00000000" && known[stop]:
-				// after the last checkpoint a request made for an announced block stops at that block
+				// after the last checkpoint: a block of the tree
 			case want == "00000000":
 				x.fail("checkpoint-advance|unknown-stop|"+cls, fmt.Sprintf("getheaders #%d carries a stop hash (..%s) that is neither zero nor a block of the tree", nReq, stop))
 			default:
